@@ -61,7 +61,7 @@ def run(ctx):
 
     # ---- (a) URIs ----------------------------------------------------------------------------------------
     KINDS = ["include", "namespace", "inherit", "lookup", "get_template", "get_namespace", "include_file"]
-    nt = 40 if tier == "quick" else 1500
+    nt = 40 if tier == "quick" else 4000
     workroot = tempfile.mkdtemp(prefix="c07_")
     nrefs = 0
     try:
@@ -159,7 +159,7 @@ def run(ctx):
 
     # ---- (b) member precedence ----------------------------------------------------------------------------------
     NAMES = ["a", "b", "c", "d", "len"]
-    nb = 150 if tier == "quick" else 6000
+    nb = 150 if tier == "quick" else 30000
     req2, got2 = [], []
     for _ in range(nb):
         nns = rng.randint(1, 3)
@@ -265,7 +265,7 @@ def run(ctx):
     # ---- (c) include ---------------------------------------------------------------------------------------------
     req3, got3 = [], []
     P = ["x", "y", "z", "w"]
-    for _ in range(150 if tier == "quick" else 4000):
+    for _ in range(150 if tier == "quick" else 20000):
         params = rng.sample(P, rng.randint(0, 3))
         given = {p: rng.choice([100 + P.index(p), 0, 0]) for p in rng.sample(P, rng.randint(0, 2)) if p in params}
         data = {p: 200 + P.index(p) for p in rng.sample(P, rng.randint(0, 4))}
